@@ -678,9 +678,59 @@ def rule_L7(ctx):
     return r
 
 
+ERR_FMT_RE = re.compile(r"(new_display|new_debug)::<&*(std::boxed::Box<)?eval::error::Error>?>$|"
+                        r"<&*(std::boxed::Box<)?eval::error::Error>? as std::string::ToString>::to_string$")
+
+
+def rule_L8(ctx):
+    """An evaluation error stays a structured value until the driver renders
+    it: a function that itself builds `eval::error::Error` values never turns
+    one into text (`e.to_string()`, `format!("{}", e)`).  Text made that way is
+    the *derived* Display of whatever wrapper happens to be outermost (variant
+    names), and the wrapped chain — function prefix, call frames, the located
+    leaf — is gone before the renderer can peel it."""
+    prog = ctx.prog
+    r = RuleResult("L8", "no error is flattened to text on the way up: a "
+                   "function that constructs evaluation errors never formats "
+                   "one (Display/Debug/`to_string`)",
+                   "a slot/argument error stored as a string inside another "
+                   "error prints internal wrapper names and loses its "
+                   "stack frames (`EvalCallFailed: EvalFuncCallFailed: ..`)")
+    n = 0
+    fam_builds = {}
+
+    def builds_error(f):
+        root = f.path.split("::{closure")[0]
+        if root not in fam_builds:
+            fam = [g for g in prog.hand_fns() if g.path == root or g.path.startswith(root + "::{closure")]
+            fam_builds[root] = any(True for g in fam for _ in g.aggregates("eval::error::Error"))
+        return fam_builds[root]
+    for f in prog.hand_fns():
+        if f.from_expansion or f.generated:
+            continue
+        for c in f.calls():
+            if c.is_ptr:
+                continue
+            full = c.res_full or c.res or ""
+            if not ERR_FMT_RE.search(full):
+                continue
+            n += 1
+            if builds_error(f):
+                r.fail("%s | evaluation error rendered to text where errors are built" % f.path.split("::{closure")[0],
+                       "%s formats an `eval::error::Error` (%s) and also "
+                       "constructs evaluation errors: the rendered text "
+                       "replaces the structured source that the driver's "
+                       "renderer peels" % (f.path, full.split("::")[-1][:40]), where=c.loc)
+            else:
+                r.ok()
+    r.inst("hand-written formatting sites of an evaluation error: %d" % n)
+    r.require_floor("formatting sites of an evaluation error (the driver's renderer)", n, 1)
+    return r
+
+
 def run(ctx):
     return [rule_L1(ctx), rule_L2(ctx), rule_L3(ctx), rule_L4(ctx),
-            rule_L5(ctx), rule_L6(ctx), rule_L7(ctx)]
+            rule_L5(ctx), rule_L6(ctx), rule_L7(ctx), rule_L8(ctx)]
 
 
 META = {
